@@ -221,6 +221,10 @@ def call_grid2geo(cv, case, zone, east, north, hemi):
     import warnings
     ell, prj, _, _ = resolve(case)
     zone, east, north = _zone_rep(case, zone), _rep(case, east), _rep(case, north)
+    if case.get("num") == "np64":
+        # the hemisphere label as it comes back out of a numpy table of results (numpy.str_ is a str)
+        import numpy as np
+        hemi = np.str_(hemi)
     with warnings.catch_warnings():
         warnings.simplefilter("ignore", UserWarning)
         if case.get("defaults"):
